@@ -16,14 +16,15 @@ ID = "C11"
 CASES = {"quick": 4000, "thorough": 50000}
 FLOOR = {"quick": 3500, "thorough": 45000}
 FLOOR_COUNTERS = {
-    "quick": {"fits_judged": 3500, "replication_pairs": 700, "rejections_judged": 3000, "zero_weight_fits": 300},
-    "thorough": {"fits_judged": 45000, "replication_pairs": 9000, "rejections_judged": 40000, "zero_weight_fits": 4000},
+    "quick": {"fits_judged": 3500, "replication_pairs": 700, "rejections_judged": 3000, "zero_weight_fits": 300, "estimators_with_a_past": 5000},
+    "thorough": {"fits_judged": 45000, "replication_pairs": 9000, "rejections_judged": 40000, "zero_weight_fits": 4000, "estimators_with_a_past": 60000},
 }
 RULE = (
     "case = X (n>=2, 1-10 columns, column scales 1e-3..1e3, offsets up to 1e3), the 8 with_mean/with_std/column_wise "
     "combinations, weights None/uniform/random/integer multiplicities/integer with zeros, new data; relations: weighted "
     "moments of the transformed data, inverse round trip, integer weights == row replication, StandardScaler, shift and "
-    "rescaling invariance, tolerance-based rejection just below / acceptance 10x above. non-trivial = weighted or "
+    "rescaling invariance, tolerance-based rejection just below / acceptance 10x above; in 40% of the cases every scaler has a "
+    "past (weighted fit on other data with the same number of rows, other flags, then set_params). non-trivial = weighted or "
     "non-default flags; distinct by data+config hash."
 )
 ASSUMPTIONS = [
@@ -53,6 +54,8 @@ def gen(rng, tier, index):
         "Z": rng.normal(size=(int(rng.integers(1, 8)), m)) * np.abs(X).max(axis=0),
         "shift": rng.normal(size=m) * np.abs(X).max(axis=0),
         "c": float(gens.pick(rng, (-1.0, 1.0)) * 10.0 ** rng.uniform(-2, 2)),
+        "past": bool(rng.random() < 0.4),  # the scaler object has been fitted before (other data, weights, flags)
+        "pseed": int(rng.integers(1 << 30)),
     }
 
 
@@ -79,7 +82,25 @@ def run(case, j):
     if (cw and np.any(var0 < 1e-10)) or (not cw and var0.sum() < 1e-10):
         raise Skip("variance-within-100x-of-the-default-atol")  # the documented rejection may legitimately fire
     kw = dict(with_mean=wm, with_std=ws, column_wise=cw)
-    est = SFS(**kw)
+
+    def scaler(label="", **more):
+        """A fresh scaler, or one with a past: fitted on other data with the same number of rows (weighted, other
+        flags and tolerances), then re-configured with set_params."""
+        if not case.get("past"):
+            return SFS(**kw, **more)
+        pr = np.random.default_rng(case["pseed"] + len(label))
+        e = SFS(with_mean=bool(pr.random() < 0.7), with_std=bool(pr.random() < 0.7), column_wise=bool(pr.random() < 0.5), atol=0.0, rtol=0.0)
+        n0 = n if pr.random() < 0.8 else int(pr.integers(2, 30))
+        m0 = m if pr.random() < 0.6 else int(pr.integers(1, 12))
+        X0 = pr.normal(size=(n0, m0)) * 10.0 ** pr.uniform(-2, 2, size=m0) + pr.normal(size=m0) * 10.0 ** pr.uniform(-1, 2)
+        w0 = pr.uniform(0.05, 3.0, size=n0) if pr.random() < 0.8 else None
+        j.lib("fit:decoy" + label, e.fit, X0, sample_weight=w0)
+        j.lib("transform:decoy" + label, e.transform, X0[:1])
+        j.lib("set_params", e.set_params, **{"atol": 1e-12, "rtol": 0.0, **kw, **more})
+        j.note("estimators_with_a_past")
+        return e
+
+    est = scaler()
     j.lib("fit", est.fit, X, sample_weight=None if w is None else w.copy())
     j.note("fits_judged")
     if w is not None and np.any(np.asarray(w) == 0):
@@ -114,7 +135,7 @@ def run(case, j):
     if case["wkind"] in ("integer", "integer0"):
         rep = np.repeat(X, np.asarray(w, int), axis=0)
         if len(rep) >= 2:
-            e2 = SFS(**kw).fit(rep)
+            e2 = scaler('rep').fit(rep)
             j.close("integer weights == repeating rows: mean_", est.mean_, e2.mean_, 1e-10 * (np.abs(mu0) + sd0))
             j.close("integer weights == repeating rows: scale_", np.asarray(est.scale_, float), np.asarray(e2.scale_, float), 1e-9 * np.asarray(s) * (amp if cw else amp.max()))
             j.note("replication_pairs")
@@ -125,14 +146,14 @@ def run(case, j):
         j.note("standardscaler_pairs")
     # invariances
     if wm:
-        e3 = SFS(**kw).fit(X + case["shift"], sample_weight=None if w is None else w.copy())
+        e3 = scaler('shift').fit(X + case["shift"], sample_weight=None if w is None else w.copy())
         T3 = e3.transform(X + case["shift"])
         amp3 = (np.abs(mu0 + case["shift"]) + sd0) / sd0
         rel3 = 1e-9 + 200 * np.finfo(float).eps * float(max(amp.max(), amp3.max()))
         j.close("transformed data unchanged by a prior shift of the input", T3, T, rel3 * (np.abs(T) + amp + amp3) * (1 if ws else np.abs(X).max() + np.abs(case["shift"]).max() + 1))
     if ws:
         c = case["c"]
-        e4 = SFS(atol=0.0, **kw).fit(c * X, sample_weight=None if w is None else w.copy())
+        e4 = scaler('scale', atol=0.0).fit(c * X, sample_weight=None if w is None else w.copy())
         T4 = e4.transform(c * X)
         # two independent fits: the scale carries a relative rounding error of about eps x (offset / spread)
         rel = 1e-9 + 200 * np.finfo(float).eps * float(amp.max())
@@ -150,12 +171,12 @@ def run(case, j):
             if not cw and mode == "rtol":
                 pass
             try:
-                SFS(**kw, **hi).fit(X, sample_weight=None if w is None else w.copy())
+                scaler('hi', **hi).fit(X, sample_weight=None if w is None else w.copy())
                 j.ok(f"variance below the {mode} tolerance is rejected", False, {"var": v[i], "tol": hi})
             except ValueError:
                 j.ok(f"variance below the {mode} tolerance is rejected", True)
             try:
-                SFS(**kw, **lo).fit(X, sample_weight=None if w is None else w.copy())
+                scaler('lo', **lo).fit(X, sample_weight=None if w is None else w.copy())
                 j.ok(f"variance 10x above the {mode} tolerance is accepted", True)
             except ValueError as e:
                 # in column-wise mode another column may legitimately fall below its own rtol threshold
